@@ -48,3 +48,42 @@ def jOptNat : Option Nat → Json
   | some n => (n : Json)
 
 end Qv.Drv
+
+namespace Qv.Drv
+open Lean
+
+def parseRat (s : String) : Except String Rat :=
+  match s.splitOn "/" with
+  | [n] => match n.toInt? with
+    | some i => .ok (i : Rat)
+    | none => .error ("bad rational " ++ s)
+  | [n, d] => match n.toInt?, d.toNat? with
+    | some i, some k => if k = 0 then .error "zero denominator" else .ok ((i : Rat) / (k : Rat))
+    | _, _ => .error ("bad rational " ++ s)
+  | _ => .error ("bad rational " ++ s)
+
+def showRat (r : Rat) : String :=
+  if r.den = 1 then toString r.num else toString r.num ++ "/" ++ toString r.den
+
+def jRat (r : Rat) : Json := Json.str (showRat r)
+def jRats (l : List Rat) : Json := Json.arr (l.map jRat).toArray
+
+def getRat (j : Json) (k : String) : Except String Rat := do
+  parseRat (← getStr j k)
+
+def getRatList (j : Json) (k : String) : Except String (List Rat) := do
+  (← getArr j k).toList.mapM fun v => do parseRat (← v.getStr?)
+
+def getOptRat (j : Json) (k : String) : Except String (Option Rat) :=
+  match j.getObjVal? k with
+  | .ok .null => .ok none
+  | .ok v => do let s ← v.getStr?; let r ← parseRat s; pure (some r)
+  | .error _ => .ok none
+
+def getOptBool (j : Json) (k : String) : Except String (Option Bool) :=
+  match j.getObjVal? k with
+  | .ok .null => .ok none
+  | .ok v => do let b ← v.getBool?; pure (some b)
+  | .error _ => .ok none
+
+end Qv.Drv
